@@ -6,6 +6,16 @@ SingleSetup against the Gallina model on the same tables.  All outputs are MOVED
 covariances) carry a unique identifier per cell, every returned component is traced back to the cell it was copied from
 and the (frequency, cell) pairs are compared exactly.
 Oracle: the property text written in NumPy (independent of the model and of the model's glue).
+
+Class level (coq/Model/M_mpe_class.v, theorems C11_class_* / C11_setup_mpe_frame): SSIcov, SSIcov(calc_unc), SSIdat, SSIcov_MS,
+SSIdat_MS, pLSCF, pLSCF_MS through setup.mpe.  ssi.SSI_mpe / plscf.pLSCF_mpe are wrapped while the class runs: the recorded
+hand-over (requests, order, rtol, deltaf, which table sits in which slot) is compared with the model's ssi_args / plscf_args, and
+the object after the call (run_params.sel_freq / order_in / rtol, ordmin / ordmax / step, result.Fn / Xi / Phi / order_out /
+Fn_cov / Xi_cov / Phi_cov, field by field and cell by cell) with the model's ssi_class_mpe / plscf_class_mpe; run parameters
+ordmin and step are varied (they must not enter), covariance tables are put into every SSI class; the other algorithms of the
+setup must keep what they hold; an algorithm that was not run and an unknown name must be refused.
+Call forms: SSI_mpe, pLSCF_mpe, <class>.mpe and setup.mpe(name, ...) are also called fully positionally in the PRISTINE parameter
+order (hard-coded above) with non-default tolerances; the answer must be that of the keyword call.
 """
 import glob
 import json
@@ -22,7 +32,18 @@ HEADER = (
     "Definition sq (n:Z) (d:positive) : option Q := Some (Qmake n d).\n"
     "Definition Qm (n:Z) (d:positive) : Q := Qmake n d.\n"
 )
+HEADER_CLASS = (
+    "From PyOMA.Model Require Import M_mpe M_mpe_class.\n"
+    "Definition sq (n:Z) (d:positive) : option Q := Some (Qmake n d).\n"
+    "Definition Qm (n:Z) (d:positive) : Q := Qmake n d.\n"
+)
 KNOWN_KEY = "C11:pLSCF_mpe:find_min-Lab7"
+# PRISTINE positional parameter orders (read from /repo/src once and fixed here: a changed tree must not redefine them)
+SSI_MPE_ORDER = ("freq_ref", "Fn_pol", "Xi_pol", "Phi_pol", "order", "Lab", "rtol", "Fn_cov", "Xi_cov", "Phi_cov")
+SSI_MPE_DEFAULTS = dict(Lab=None, rtol=5e-2, Fn_cov=None, Xi_cov=None, Phi_cov=None)
+PLSCF_MPE_ORDER = ("sel_freq", "Fn_pol", "Xi_pol", "Phi_pol", "order", "Lab", "deltaf", "rtol")
+PLSCF_MPE_DEFAULTS = dict(order="find_min", Lab=None, deltaf=0.05, rtol=1e-2)
+CLASS_MPE_ORDER = ("sel_freq", "order", "rtol")  # SSIdat.mpe and pLSCF.mpe (inherited by every other class); setup.mpe(name, *these)
 # pLSCF_mpe has an explicit search band deltaf: a pole outside the REQUESTED band is not "within tolerance" whatever rtol says
 PL_READ = ("band", "count")
 ATOL = 1e-8
@@ -628,7 +649,7 @@ def present_tables(W, kind, rnd):
     return how
 
 
-PRESENT_KEY = dict(ro="read-only-input", forms="option-form", f32="storage-dtype", lab="storage-dtype", int="storage-dtype")
+PRESENT_KEY = dict(ro="read-only-input", forms="option-form", f32="storage-dtype", lab="storage-dtype", int="storage-dtype", pos="positional-call")
 
 
 def raw_call(routine, W, freq, order, cov, rtol, deltaf, formed=False):
@@ -646,6 +667,23 @@ def raw_call(routine, W, freq, order, cov, rtol, deltaf, formed=False):
         out, err = call(plscf.pLSCF_mpe, fr, W["Fn"], W["Xi"], W["Phi"], od, Lab=W.get("LabP", W["Lab"]), deltaf=deltaf, rtol=rtol)
     args_changed = [] if formed else ([] if fr == list(freq) else ["sel_freq"]) + ([] if od == order else ["order"])
     return out, err, args_changed
+
+
+def pos_call(routine, W, freq, order, cov, rtol, deltaf):
+    """The same call made fully positionally, in the pristine parameter order."""
+    fr = list(freq)
+    od = list(order) if isinstance(order, list) else order
+    if routine == "ssi":  # SSI_MPE_ORDER
+        covs = (W["Fn_cov"], W["Xi_cov"], W["Phi_cov"]) if cov else (None, None, None)
+        return call(ssi.SSI_mpe, fr, W["Fn"], W["Xi"], W["Phi"], od, W["Lab"], rtol, *covs)
+    return call(plscf.pLSCF_mpe, fr, W["Fn"], W["Xi"], W["Phi"], od, W.get("LabP", W["Lab"]), deltaf, rtol)  # PLSCF_MPE_ORDER
+
+
+def non_default(rtol, deltaf):
+    """Tolerances that differ from every default of the signatures (0.05, 0.01) and from each other."""
+    rt2 = rtol if rtol not in (0.05, 0.01) else 3 / 64
+    df2 = deltaf if (deltaf not in (0.05, 0.01) and deltaf != rt2) else 0.07
+    return rt2, df2
 
 
 def same_out(a, b):
@@ -695,13 +733,27 @@ class Runner:
         """Every entry point once more with the SAME values presented differently (read-only arrays, other option forms, other storage
         dtypes): the result must be the one obtained from the plain float64 / Python-scalar presentation (which the model and the oracle judge)."""
         rnd = self.ctx.rng
-        kinds = ["ro", "ro", "forms", "forms", "lab"] + (["f32", "f32"] if f32_exact(P, freq) else []) + (["int", "int", "int"] if int_table(P) else [])
+        kinds = ["ro", "ro", "forms", "forms", "lab", "pos", "pos"] + (["f32", "f32"] if f32_exact(P, freq) else []) + (["int", "int", "int"] if int_table(P) else [])
         forced = case.get("present")
         for site, routine, order, cov, ref in self._specs:
             kind = forced if forced in kinds else rnd.choice(kinds)
             W = fresh(P)
             how = present_tables(W, kind, rnd)
-            if kind == "forms":
+            if kind == "pos":
+                # every argument by position (pristine order), tolerances away from every default; reference = the keyword call with those values
+                rt2, df2 = non_default(rtol, deltaf)
+                how = "every argument passed by position (rtol=%r, deltaf=%r)" % (rt2, df2)
+                if (rt2, df2) != (rtol, deltaf):
+                    ref = raw_call(routine, fresh(P), freq, order, cov, rt2, df2)[:2]
+                out, err = pos_call(routine, W, freq, order, cov, rt2, df2)
+                Fn0 = P["Fn"]
+                cols = ([order] * len(freq)) if isinstance(order, int) else (order if isinstance(order, list) else None)
+                if (cols is not None and len(cols) >= len(freq) and all(0 <= c < Fn0.shape[1] for c in cols[: len(freq)])
+                        and case.get("kind", "valid") in ("valid", "corpus") and in_domain(dict(freq=freq, rtol=rt2, deltaf=df2))
+                        and judged_explicit(Fn0, freq, cols[: len(freq)], rt2)):
+                    self.report(site + ":positional", oracle_explicit(Fn0, P, freq, cols[: len(freq)], rt2, canon_impl(out, err, P, len(freq), cov)),
+                                case, dict(order=order, call="positional", rtol_used=rt2))
+            elif kind == "forms":
                 fr, od, rt, df, how = present_args(rnd, freq, order, rtol, deltaf)
                 out, err, _ = raw_call(routine, W, fr, od, cov, rt, df, formed=True)
             else:
@@ -709,8 +761,9 @@ class Runner:
             self.ctx.count(dict(case, site=site, order=order, cov=cov, presentation=str(how)), nontrivial=True)
             self.ctx.hist("presentation", kind)
             if not same_out((out, err), ref):
-                self.ctx.fail("oracle", "%s(order=%s) with %s returns %s; with writable float64 tables and Python scalars it returns %s"
-                              % (site, order, how, (getattr(call, "last", err) if err else brief((out, err))), brief(ref)),
+                self.ctx.fail("oracle", "%s(order=%s) with %s returns %s; %s it returns %s"
+                              % (site, order, how, (getattr(call, "last", err) if err else brief((out, err))),
+                                 "called with keywords and the same values" if kind == "pos" else "with writable float64 tables and Python scalars", brief(ref)),
                               dict(case, site=site, order=order, presentation=how), key="C11:%s:%s" % (site, PRESENT_KEY[kind]))
 
     def sequences(self, case, P, freq, rtol, deltaf):
@@ -988,12 +1041,99 @@ def simulate(rng, nch=3, N=1500, fs=20.0):
     return y + 0.02 * rng.standard_normal((N, nch)) * y.std(), fns
 
 
+class Capture:
+    """Records what the class hands over to ssi.SSI_mpe / plscf.pLSCF_mpe (the module attributes the classes call through)."""
+
+    def __init__(self):
+        self.calls = []
+
+    def __enter__(self):
+        self.orig = (ssi.SSI_mpe, plscf.pLSCF_mpe)
+
+        def w_ssi(*a, **k):
+            self.calls.append(("ssi", a, k))
+            return self.orig[0](*a, **k)
+
+        def w_pl(*a, **k):
+            self.calls.append(("plscf", a, k))
+            return self.orig[1](*a, **k)
+
+        ssi.SSI_mpe, plscf.pLSCF_mpe = w_ssi, w_pl
+        return self
+
+    def __exit__(self, *exc):
+        ssi.SSI_mpe, plscf.pLSCF_mpe = self.orig
+        return False
+
+    def bound(self):
+        """The single recorded call bound to the pristine parameter names; None when the hand-over could not be observed that way."""
+        if len(self.calls) != 1:
+            return None
+        which, a, k = self.calls[0]
+        names, defaults = (SSI_MPE_ORDER, SSI_MPE_DEFAULTS) if which == "ssi" else (PLSCF_MPE_ORDER, PLSCF_MPE_DEFAULTS)
+        if len(a) > len(names) or any(x not in names for x in k) or any(x in names[: len(a)] for x in k):
+            return None
+        d = dict(defaults)
+        d.update(zip(names, a))
+        d.update(k)
+        if any(x not in d for x in names):
+            return None
+        d["_routine"] = which
+        return d
+
+
+def coq_order(order):
+    if isinstance(order, list):
+        return "(Explicit (OList %s))" % coq_nats(order)
+    if order == "find_min":
+        return "FindMin"
+    return "(Explicit (OInt %d%%nat))" % int(order)
+
+
+def show_order(order):
+    if isinstance(order, (list, tuple, np.ndarray)):
+        return "L " + " ".join(str(int(x)) for x in order)
+    if isinstance(order, str):
+        return str(order)
+    return "I %d" % int(order)
+
+
+def fracs(txt):
+    out = []
+    for t in txt.split():
+        n, d = t.split("/")
+        out.append(Fraction(int(n), int(d)))
+    return out
+
+
+TAGS = (("Xi", 1), ("Phi", 2), ("Fn_cov", 3), ("Xi_cov", 4), ("Phi_cov", 5))
+
+
+def slot_tag(x, tb, want):
+    """Which of the object's moved tables sits in this argument slot (the expected one when it matches)."""
+    if x is None:
+        return "N"
+    if tb.get(want) is not None and eqv(np.asarray(x), tb[want]):
+        return str(dict(TAGS)[want])
+    for k, t in TAGS:
+        if tb.get(k) is not None and eqv(np.asarray(x), tb[k]):
+            return str(t)
+    return "?"
+
+
+def shape_of(x, ref):
+    a = np.asarray(x)
+    return "%dx%d" % (a.shape[0], a.shape[1]) if (a.ndim == 2 and eqv(a.astype(float), np.asarray(ref, dtype=float))) else "?"
+
+
 class ClassRunner(Runner):
     def run_classes(self):
         ctx = self.ctx
         rng = ctx.np_rng
-        from pyoma2.algorithms import SSIcov, SSIcov_MS, SSIdat, pLSCF
+        from pyoma2.algorithms import SSIcov, SSIcov_MS, SSIdat, SSIdat_MS, pLSCF, pLSCF_MS
         from pyoma2.setup import MultiSetup_PreGER, SingleSetup
+
+        self.exprs2, self.meta2 = [], []
 
         nsets = ctx.n(1, 3)
         for s in range(nsets):
@@ -1008,32 +1148,43 @@ class ClassRunner(Runner):
                     ("SSIcov_unc", ss, SSIcov(name="SSIcov_unc", br=8, ordmax=10, ordmin=om[1], calc_unc=True, nb=6), om[1]),
                     ("SSIdat", ss, SSIdat(name="SSIdat", br=8, ordmax=10, ordmin=om[2]), om[2]),
                     ("SSIcov_MS", ms, SSIcov_MS(name="SSIcov_MS", br=8, ordmax=10, ordmin=om[3]), om[3]),
-                    ("pLSCF", ss, pLSCF(name="pLSCF", ordmax=8, nxseg=256), 0)]
+                    ("pLSCF", ss, pLSCF(name="pLSCF", ordmax=8, nxseg=256), 0),
+                    ("SSIdat_MS", ms, SSIdat_MS(name="SSIdat_MS", br=6, ordmax=7, ordmin=om[1]), om[1]),
+                    ("pLSCF_MS", ms, pLSCF_MS(name="pLSCF_MS", ordmax=6, nxseg=256), 0)]
+            light = ("SSIdat_MS", "pLSCF_MS")  # the two remaining classes: fewer cases each (they inherit the same two methods)
             if s == 0:
                 for k, cc in enumerate(self.class_corpus):
-                    cls = dict(SSIcov=SSIcov, SSIdat=SSIdat, SSIcov_MS=SSIcov_MS)[cc["cls"]]
-                    algs.append(("%s" % cc["cls"], ms if cc["cls"].endswith("_MS") else ss,
-                                 cls(name="corpus%d" % k, br=8, ordmax=10, ordmin=int(cc["ordmin"])), int(cc["ordmin"]), cc))
+                    cls = dict(SSIcov=SSIcov, SSIdat=SSIdat, SSIcov_MS=SSIcov_MS, SSIdat_MS=SSIdat_MS, pLSCF=pLSCF, pLSCF_MS=pLSCF_MS)[cc["cls"]]
+                    obj = (cls(name="corpus%d" % k, ordmax=8, nxseg=256) if cc["cls"].startswith("pLSCF")
+                           else cls(name="corpus%d" % k, br=8, ordmax=10, ordmin=int(cc["ordmin"])))
+                    algs.append(("%s" % cc["cls"], ms if cc["cls"].endswith("_MS") else ss, obj, int(cc["ordmin"]), cc))
             ss.add_algorithms(*[a[2] for a in algs if a[1] is ss])
             ms.add_algorithms(*[a[2] for a in algs if a[1] is ms])
+            if s == 0:
+                self.probe_setup_errors(ss, lambda: SSIcov(name="never run", br=8, ordmax=10), lambda: pLSCF(name="never run either", ordmax=8, nxseg=256))
             for ent in algs:
                 name, setup, alg, ordmin = ent[:4]
                 setup.run_by_name(alg.name)
                 ctx.hist("class ordmin", "%s ordmin=%d" % (name, ordmin))
-                is_ssi = name != "pLSCF"
+                is_ssi = not name.startswith("pLSCF")
                 has_cov = name == "SSIcov_unc"
+                if is_ssi and len(ent) == 4:
+                    # the run parameter step does not take part in the extraction (the order handed over is a column index): any value
+                    # recorded in the object must leave the answer where it is
+                    alg.run_params.step = int(rng.choice([1, 2, 3]))
+                    ctx.hist("class step", alg.run_params.step)
                 if len(ent) == 5:  # corpus case: its table injected into a freshly run object with that ordmin
                     cc = ent[4]
                     Fn = nan_tab(cc["Fn"])
                     tb = payload(*Fn.shape)
                     tb.update(Fn=Fn, Lab=np.array(cc["Lab"], dtype=int), Fn_cov=None, Xi_cov=None, Phi_cov=None)
-                    self.class_case(setup, name, alg, True, False, tb, dict(kind="corpus", freq=cc["freq"], rtol=cc["rtol"], o_int=cc["o_int"], o_list=cc["o_list"]),
+                    self.class_case(setup, name, alg, is_ssi, False, tb, dict(kind="corpus", freq=cc["freq"], rtol=cc["rtol"], o_int=cc["o_int"], o_list=cc["o_list"]),
                                     extra=dict(ordmin=ordmin, note=cc.get("note", "")))
                     continue
                 real = self.tables_of(alg.result, has_cov)
                 # (a) the algorithm's own tables; (b) synthetic tables put into the result object (exercises the glue with unique payloads)
-                variants = [("own", real)]
-                for _ in range(ctx.n(3, 8)):
+                variants = [("own", real, has_cov)]
+                for _ in range(ctx.n(2, 4) if name in light else ctx.n(3, 8)):
                     case = gen_case(rng, False)
                     Fn = nan_tab(case["Fn"])
                     tb = payload(*Fn.shape)
@@ -1043,10 +1194,12 @@ class ClassRunner(Runner):
                     elif ordmin and rng.random() < 0.5:
                         L[:, :ordmin] = 0  # as a run with this ordmin would label: nothing stable below ordmin
                     tb.update(Fn=Fn, Lab=L)
-                    if not has_cov:
+                    # covariance tables in the result object of ANY SSI class (the method hands over whatever the object holds)
+                    inj_cov = has_cov or (is_ssi and rng.random() < 0.5)
+                    if not inj_cov:
                         tb.update(Fn_cov=None, Xi_cov=None, Phi_cov=None)
-                    variants.append((case, tb))
-                for tag, tb in variants:
+                    variants.append((case, tb, inj_cov))
+                for tag, tb, has_cov in variants:
                     self.set_tables(alg.result, fresh(tb), is_ssi)
                     Fn, Lab = tb["Fn"], tb["Lab"]
                     n, m = Fn.shape
@@ -1056,7 +1209,7 @@ class ClassRunner(Runner):
                             ctx.note("class %s: the simulated run left no retained pole; own-table variant skipped" % name)
                             continue
                         reqs = []
-                        for rep in range(ctx.n(3, 6)):
+                        for rep in range(ctx.n(1, 2) if name in light else ctx.n(3, 6)):
                             fr = sorted(float(f) for f in fns[: int(rng.integers(1, 4))] * (1 + 0.004 * rng.standard_normal()))
                             o_int = int(rng.choice(cols_ok))
                             o_list = [int(x) for x in rng.choice(cols_ok, size=len(fr))]
@@ -1107,7 +1260,16 @@ class ClassRunner(Runner):
                 order, cols = "find_min", None
                 expr = "showRes (ssi_mpe Fn Pay Lab fr FindMin rt)" if is_ssi else "showPresent (plscf_find_min_present Fn Pay Lab fr df rt)"
             self.set_tables(alg.result, fresh(tb), is_ssi)  # private copies of the result tables for this call
-            out, err = self.class_mpe(ss, alg.name, alg, is_ssi, freq, order, rtol)
+            rp0 = alg.run_params
+            rp_pre = (int(rp0.ordmin), int(rp0.ordmax), int(getattr(rp0, "step", 1)))
+            others = self.others_snapshot(ss, alg)
+            with Capture() as cap:
+                out, err = self.class_mpe(ss, alg.name, alg, is_ssi, freq, order, rtol)
+            snap = None if err else self.snapshot(alg)
+            moved = self.others_changed(ss, alg, others)
+            if moved:
+                ctx.fail("oracle", "setup.mpe(%r, order=%s) changed what is stored for OTHER algorithms of the setup: %s (their parameters are no longer those of their own extraction)"
+                         % (alg.name, order if not isinstance(order, list) else "list", moved), dict(case, order=order, others=moved), key="C11:setup.mpe:other-algorithm-changed")
             ch = changed(self.cur_tables(alg.result, is_ssi), {k: v for k, v in tb.items() if is_ssi or not k.endswith("_cov")})
             if ch:
                 ctx.fail("oracle", "%s.mpe(order=%s) modified the result tables %s in place (a later mpe on the same object then sees other poles)"
@@ -1115,10 +1277,17 @@ class ClassRunner(Runner):
             seq_specs.append((order, (out, err)))
             ctx.count(dict(case, order=order), nontrivial=True)
             ctx.hist("order", "%s.mpe:%s" % (name, oname))
+            lv = 7 if (not is_ssi and (Lab == 7).any()) else 1  # pLSCF tables whose stable poles are written 7 (what the present routine reads)
             if oname == "find_min":
-                jd = judged_findmin(Fn, Lab, 1, freq, rtol if is_ssi else 0.05, not is_ssi, rtol)
+                jd = judged_findmin(Fn, Lab, lv, freq, rtol if is_ssi else 0.05, not is_ssi, rtol)
             else:
                 jd = judged_explicit(Fn, freq, cols, rtol)
+            # the class-level model (M_mpe_class): what is handed over to the routine, and the object after the call
+            fnm = ("ssi_args", "ssi_class_mpe") if is_ssi else ("plscf_args", "plscf_class_mpe false")
+            self.exprs2.append(let + "let T := mk_tables Fn Lab %d %d %s in let A := mk_algo T %d %d %d in " % ((n, m, "true" if has_cov else "false") + rp_pre)
+                               + 'showArgs (%s T (a_rp A) fr %s rt) ++ "#" ++ showAlgo (%s A fr %s rt)' % (fnm[0], coq_order(order), fnm[1], coq_order(order)))
+            self.meta2.append(dict(case=dict(case, order=order), name=name, is_ssi=is_ssi, tb=tb, order=order, bound=cap.bound(), ncalls=len(cap.calls),
+                                   snap=snap, err=err, jd=jd, freq=freq, rtol=rtol))
             if not jd:
                 ctx.not_judged += 1
                 continue
@@ -1126,7 +1295,16 @@ class ClassRunner(Runner):
             if not is_ssi and oname == "find_min":
                 parts.append(expr)
                 metas.append(("present", (out, err), order, site))
-                if dom:
+                if dom and lv == 7:
+                    # the property text decides order and poles wherever the recorded deviations of the present loop cannot interfere; the
+                    # band is the routine's default 0.05 (the class has no argument for it)
+                    impl = canon_impl(out, err, tabs, len(freq), False)
+                    res = oracle_findmin(Fn, Lab, 7, tabs, freq, 0.05, True, rtol, impl, readings=PL_READ, present_loop=True)
+                    ctx.hist("oracle", "%s find_min (stable=7):%s" % (site, "not-judged" if res == "skip" else "judged"))
+                    if res not in (None, "skip"):
+                        ctx.fail("oracle", "%s find_min (stable poles labelled 7, search band 0.05): %s" % (site, res[1]), dict(case, order=order),
+                                 key="C11:%s:find_min-label7:%s" % (site, res[0]))
+                elif dom:
                     impl = canon_impl(out, err, tabs, len(freq), False)
                     res = oracle_findmin(Fn, Lab, 1, tabs, freq, 0.05, True, rtol, impl)
                     if res not in (None, "skip"):
@@ -1149,13 +1327,32 @@ class ClassRunner(Runner):
             self.meta.append((case, tabs, metas, "class"))
         # the same values presented differently (read-only result tables, other option forms, other storage dtypes)
         rnd = ctx.rng
-        kinds = ["ro", "ro", "forms", "forms", "lab"] + (["f32", "f32"] if f32_exact(tb, freq) else [])
+        kinds = ["ro", "ro", "forms", "forms", "lab", "pos", "pos"] + (["f32", "f32"] if f32_exact(tb, freq) else [])
         for order, ref in seq_specs:
             kind = rnd.choice(kinds)
             W = fresh(tb)
             how = present_tables(W, kind, rnd)
             self.set_tables(alg.result, W, is_ssi)
-            if kind == "forms":
+            if kind == "pos":
+                # CLASS_MPE_ORDER by position, through setup.mpe(name, ...) or the method itself; rtol away from the default
+                rt2 = rtol if rtol != 0.05 else 3 / 64
+                via = rnd.choice(["setup.mpe(name, sel_freq, order, rtol)", "algorithm.mpe(sel_freq, order, rtol)"])
+                how = "every argument passed by position: %s, rtol=%r" % (via, rt2)
+                if rt2 != rtol:
+                    ref = self.class_mpe(ss, alg.name, alg, is_ssi, freq, order, rt2)
+                    self.set_tables(alg.result, fresh(tb), is_ssi)
+                od = list(order) if isinstance(order, list) else order
+                _, perr = call(ss.mpe, alg.name, list(freq), od, rt2) if via.startswith("setup") else call(alg.mpe, list(freq), od, rt2)
+                r = alg.result
+                got = (None if perr else ((r.Fn, r.Xi, r.Phi, r.order_out, r.Fn_cov, r.Xi_cov, r.Phi_cov) if is_ssi else (r.Fn, r.Xi, r.Phi, r.order_out)), perr)
+                rp = alg.run_params
+                if not perr and not (rp.sel_freq is not None and list(rp.sel_freq) == list(freq) and show_order(rp.order_in) == show_order(order) and rp.rtol == rt2):
+                    ctx.fail("oracle", "%s.mpe called by position (%s) records sel_freq=%r order_in=%r rtol=%r for the request sel_freq=%r order=%r rtol=%r"
+                             % (name, via, rp.sel_freq, rp.order_in, rp.rtol, freq, order, rt2), dict(case, order=order, presentation=how), key="C11:%s.mpe:positional-call" % name)
+                if isinstance(order, (int, list)) and rt2 != rtol and dom and judged_explicit(Fn, freq, [order] * len(freq) if isinstance(order, int) else order, rt2):
+                    cols = [order] * len(freq) if isinstance(order, int) else order
+                    self.report(name + ".mpe:positional", oracle_explicit(Fn, tabs, freq, cols, rt2, canon_impl(got[0], perr, tabs, len(freq), has_cov)), case, dict(order=order, call=how))
+            elif kind == "forms":
                 fr, od, rt, _, how = present_args(rnd, freq, order, rtol, 0.05)
                 got = self.class_mpe(ss, alg.name, alg, is_ssi, fr, od, rt, formed=True)
             else:
@@ -1163,8 +1360,9 @@ class ClassRunner(Runner):
             ctx.count(dict(case, order=order, presentation=str(how)), nontrivial=True)
             ctx.hist("presentation", "%s (class)" % kind)
             if not same_out(got, ref):
-                ctx.fail("oracle", "%s.mpe(order=%s) with %s returns %s; with writable float64 tables and Python scalars it returns %s"
-                         % (name, order, how, (getattr(call, "last", got[1]) if got[1] else brief(got)), brief(ref)),
+                ctx.fail("oracle", "%s.mpe(order=%s) with %s returns %s; %s it returns %s"
+                         % (name, order, how, (getattr(call, "last", got[1]) if got[1] else brief(got)),
+                            "called with keywords and the same values" if kind == "pos" else "with writable float64 tables and Python scalars", brief(ref)),
                          dict(case, order=order, presentation=how), key="C11:%s.mpe:%s" % (name, PRESENT_KEY[kind]))
         # several mpe calls on the SAME algorithm object / result tables: each must return what it returns on fresh tables
         seq = seq_specs[:]
@@ -1198,6 +1396,170 @@ class ClassRunner(Runner):
         out = None if err else ((r.Fn, r.Xi, r.Phi, r.order_out, r.Fn_cov, r.Xi_cov, r.Phi_cov) if is_ssi else (r.Fn, r.Xi, r.Phi, r.order_out))
         return out, err
 
+    STORED = ("Fn", "Xi", "Phi", "order_out", "Fn_cov", "Xi_cov", "Phi_cov")
+
+    @staticmethod
+    def snapshot(alg):
+        rp, r = alg.run_params, alg.result
+        d = dict(sel_freq=rp.sel_freq, order_in=rp.order_in, rtol=rp.rtol, ordmin=rp.ordmin, ordmax=rp.ordmax, step=getattr(rp, "step", 1))
+        d.update({k: getattr(r, k, None) for k in ClassRunner.STORED})
+        return d
+
+    @staticmethod
+    def others_snapshot(setup, alg):
+        out = {}
+        for nm, a in getattr(setup, "algorithms", {}).items():
+            if a is alg or getattr(a, "result", None) is None:
+                continue
+            r, rp = a.result, a.run_params
+            out[nm] = ([None if getattr(r, k, None) is None else np.array(getattr(r, k), copy=True) for k in ClassRunner.STORED],
+                       (repr(rp.sel_freq), repr(rp.order_in), repr(rp.rtol)))
+        return out
+
+    @staticmethod
+    def others_changed(setup, alg, before):
+        moved = []
+        for nm, (vals, rps) in before.items():
+            a = setup.algorithms.get(nm)
+            if a is None or a.result is None:
+                moved.append(nm)
+                continue
+            r, rp = a.result, a.run_params
+            for k, v in zip(ClassRunner.STORED, vals):
+                w = getattr(r, k, None)
+                if (v is None) != (w is None) or (v is not None and not eqv(np.asarray(w), v)):
+                    moved.append("%s.result.%s" % (nm, k))
+            if (repr(rp.sel_freq), repr(rp.order_in), repr(rp.rtol)) != rps:
+                moved.append("%s.run_params" % nm)
+        return moved
+
+    def probe_setup_errors(self, ss, make_ssi, make_pl):
+        """An algorithm that has not been run, and a name the setup does not know: mpe must refuse (model: NotRun / NoAlg), store nothing."""
+        ctx = self.ctx
+        for tag, alg, fn in (("SSIcov", make_ssi(), "ssi_class_mpe"), ("pLSCF", make_pl(), "plscf_class_mpe false")):
+            ss.add_algorithms(alg)
+            for form, od in (("int", 0), ("find_min", "find_min")):
+                _, err = call(ss.mpe, alg.name, sel_freq=[1.0], order=od, rtol=0.02)
+                case = dict(kind="class-not-run", cls=tag, order=od)
+                ctx.count(case, nontrivial=False)
+                self.exprs2.append("showAlgo (%s (@Build_algo Z Z Z Z Z (a_rp (mk_algo (mk_tables [] [] 0 0 false) 0 10 1)) None None) [Qm 1 1] %s (Qm 1 50))" % (fn, coq_order(od)))
+                self.meta2.append(dict(case=case, name=tag, probe="not-run", err=err, stored=alg.result is not None and getattr(alg.result, "Fn", None) is not None))
+        _, err = call(ss.mpe, "no algorithm of this name", sel_freq=[1.0], order=0, rtol=0.02)
+        case = dict(kind="class-unknown-name")
+        ctx.count(case, nontrivial=False)
+        self.exprs2.append('let A := mk_algo (mk_tables [[sq 1 1]] [[1%Z]] 1 1 false) 0 10 1 in match setup_mpe false [("a"%string, ASsi A); ("b"%string, APl A)] '
+                           '"c"%string [Qm 1 1] (Explicit (OInt 0%nat)) (Qm 1 50) with COk _ => "O" | CErr e => "E " ++ showCerr e end')
+        self.meta2.append(dict(case=case, name="setup", probe="unknown-name", err=err, stored=False))
+
+    def cmp_class_model(self, meta, s):
+        ctx = self.ctx
+        case, name = meta["case"], meta["name"]
+        if "probe" in meta:
+            if not s.startswith("E ") or not meta["err"] or meta["stored"]:
+                ctx.fail("correspondence", "%s: mpe on %s: model %r, implementation %s" % (name, meta["probe"], s, meta["err"] or "returns"), case,
+                         key="C11:%s.mpe:corr-%s" % (name, meta["probe"]))
+            return
+        a_str, o_str = s.split("#")
+        tb, order, b, snap, err, freq = meta["tb"], meta["order"], meta["bound"], meta["snap"], meta["err"], meta["freq"]
+        is_ssi = meta["is_ssi"]
+        # ---- the hand-over
+        if b is None:
+            ctx.hist("hand-over", "not observed (%d calls recorded at the module attributes)" % meta["ncalls"])
+        else:
+            ctx.hist("hand-over", "observed")
+            fr_m, ord_m, rt_m, df_m, tags_m, shp_m = a_str.split("|")
+            try:
+                got_fr = [fq(float(x)) for x in b["freq_ref" if b["_routine"] == "ssi" else "sel_freq"]]
+            except Exception:  # noqa: BLE001
+                got_fr = None
+            covs = [b.get(k) for k in ("Fn_cov", "Xi_cov", "Phi_cov")] if b["_routine"] == "ssi" else [None, None, None]
+            tags = "%s %s %s" % (slot_tag(b["Xi_pol"], tb, "Xi"), slot_tag(b["Phi_pol"], tb, "Phi"),
+                                 "N" if all(c is None for c in covs) else " ".join(slot_tag(c, tb, k) for c, k in zip(covs, ("Fn_cov", "Xi_cov", "Phi_cov"))))
+            shp = "%s %s" % (shape_of(b["Fn_pol"], tb["Fn"]), "?" if b["Lab"] is None else shape_of(b["Lab"], tb["Lab"]))
+            bad = []
+            if got_fr != fracs(fr_m):
+                bad.append("requests %r" % (b.get("freq_ref", b.get("sel_freq")),))
+            if show_order(b["order"]) != ord_m:
+                bad.append("order %r (model: %s)" % (b["order"], ord_m))
+            if float(b["rtol"]) != float(fracs(rt_m)[0]):
+                bad.append("rtol %r (model: %s)" % (b["rtol"], rt_m))
+            if b["_routine"] == "plscf" and float(b["deltaf"]) != float(fracs(df_m)[0]):
+                bad.append("deltaf %r (model: %s)" % (b["deltaf"], df_m))
+            if tags != tags_m:
+                bad.append("moved tables in the slots (Xi, Phi, Fn_cov, Xi_cov, Phi_cov) are %s (model: %s; 1..5 = the object's Xi_poles, Phi_poles, Fn_poles_cov, Xi_poles_cov, Phi_poles_cov)" % (tags, tags_m))
+            if shp != shp_m:
+                bad.append("Fn_pol / Lab are not the object's Fn_poles / Lab (%s, model %s)" % (shp, shp_m))
+            if (b["_routine"] == "ssi") != is_ssi:
+                bad.append("routine %s" % b["_routine"])
+            if bad:
+                ctx.fail("correspondence", "%s.mpe(order=%s) hands over to the extraction routine something else than the class-level model: %s"
+                         % (name, order if not isinstance(order, list) else "list", "; ".join(bad)), case, key="C11:%s.mpe:corr-hand-over" % name)
+        # ---- the object after the call
+        if not meta["jd"]:
+            return
+        if o_str.startswith("E ") or err:
+            if o_str.startswith("E ") != bool(err):
+                ctx.fail("correspondence", "%s.mpe(order=%s): class-level model %s, implementation %s" % (name, order, o_str[:40], err or "returns"), case,
+                         key="C11:%s.mpe:corr-stored" % name)
+            return
+        sel_m, oin_m, rt_m, rp_m, Fn_m, Xi_m, Phi_m, oo_m, cov_m = o_str[2:].split("|")
+        bad = []
+        try:
+            if snap["sel_freq"] is None or [fq(float(x)) for x in snap["sel_freq"]] != fracs(sel_m):
+                bad.append("run_params.sel_freq=%r" % (snap["sel_freq"],))
+            if show_order(snap["order_in"]) != oin_m:
+                bad.append("run_params.order_in=%r" % (snap["order_in"],))
+            if float(snap["rtol"]) != float(fracs(rt_m)[0]):
+                bad.append("run_params.rtol=%r" % (snap["rtol"],))
+            if "%d %d %d" % (snap["ordmin"], snap["ordmax"], snap["step"]) != rp_m:
+                bad.append("run_params ordmin/ordmax/step=%r (before the call %s)" % ((snap["ordmin"], snap["ordmax"], snap["step"]), rp_m))
+            FnS = np.asarray(snap["Fn"], dtype=float).reshape(-1)
+            if [None if x != x else fq(x) for x in FnS] != fracs(Fn_m):
+                bad.append("result.Fn=%s (model %s)" % (FnS.tolist(), Fn_m))
+            for fld, key, tag, vec, txt in (("Xi", "Xi", 1, False, Xi_m), ("Phi", "Phi", 2, True, Phi_m)):
+                if not self.field_ok(txt, snap[fld], tb[key], tag, vec):
+                    bad.append("result.%s is not the content of the cells %s of %s_poles" % (fld, [int(x) % 1000 for x in txt.split()], fld))
+            oo_mod = [] if oo_m == "N" else [int(oo_m[2:])] if oo_m.startswith("I ") else [int(x) for x in oo_m[1:].split()]
+            if isinstance(order, list):
+                oo_mod = oo_mod[: len(freq)]
+            if canon_oo(snap["order_out"], len(freq)) != oo_mod:
+                bad.append("result.order_out=%r (model %s)" % (snap["order_out"], oo_m))
+            cv = [snap["Fn_cov"], snap["Xi_cov"], snap["Phi_cov"]]
+            if cov_m == "N":
+                if any(c is not None for c in cv):
+                    bad.append("covariances stored although the object has no covariance tables")
+            else:
+                for c, key, tag, vec, txt in zip(cv, ("Fn_cov", "Xi_cov", "Phi_cov"), (3, 4, 5), (False, False, True), cov_m.split(";")):
+                    if c is None or tb.get(key) is None or not self.field_ok(txt, c, tb[key], tag, vec):
+                        bad.append("result.%s is not the content of the cells %s of %s" % (key, [int(x) % 1000 for x in txt.split()], key.replace("_cov", "_poles_cov")))
+        except Exception as e:  # noqa: BLE001
+            bad.append("stored object could not be read: %s: %s" % (type(e).__name__, str(e)[:120]))
+        if bad:
+            ctx.fail("correspondence", "%s.mpe(order=%s): the object after the call differs from the class-level model: %s"
+                     % (name, order if not isinstance(order, list) else "list", "; ".join(bad)), case, key="C11:%s.mpe:corr-stored" % name)
+
+    @staticmethod
+    def field_ok(txt, arr, table, tag, vec):
+        ids = [int(x) for x in txt.split()]
+        a = np.asarray(arr)
+        if vec:
+            if a.size == 0:
+                comps = []
+            elif a.ndim != 2:
+                return False
+            else:
+                comps = [a[:, j] for j in range(a.shape[1])]
+        else:
+            comps = list(a.reshape(-1))
+        if len(comps) != len(ids):
+            return False
+        n, m = table.shape[:2]
+        for v, i in zip(comps, ids):
+            r, c = divmod(i % 1000, m)
+            if i // 1000 != tag or r >= n or not eqv(table[r, c], v):
+                return False
+        return True
+
     @staticmethod
     def cur_tables(res, is_ssi):
         d = dict(Fn=res.Fn_poles, Xi=res.Xi_poles, Phi=res.Phi_poles, Lab=res.Lab)
@@ -1207,7 +1569,10 @@ class ClassRunner(Runner):
 
     def finish_classes(self):
         ctx = self.ctx
-        res = ctx.coq_eval(HEADER, self.exprs, shard=max(6, len(self.exprs) // 12 + 1))
+        # one wave of coqc runs for both the function-level expressions of the class cases and the class-level model
+        allx = self.exprs + self.exprs2
+        res = ctx.coq_eval(HEADER_CLASS, allx, shard=max(6, len(allx) // 12 + 1))
+        res, res2 = res[: len(self.exprs)], res[len(self.exprs):]
         for (case, tabs, metas, _), s in zip(self.meta, res):
             outs = s.split("#")
             for (kind, impl, order, site), o in zip(metas, outs):
@@ -1215,6 +1580,8 @@ class ClassRunner(Runner):
                     self.cmp(site, order, parse_res(o), impl, case, len(case["freq"]))
                 else:
                     self.cmp_present("0/1 (%s)" % site, parse_present(o), impl, tabs, case)
+        for meta, s in zip(self.meta2, res2):
+            self.cmp_class_model(meta, s)
 
 
 # ------------------------------------------------------------------------------------------------------------
@@ -1225,11 +1592,14 @@ def run(ctx):
         "dyadic and decimal; poles placed inside, exactly on, between and outside the tolerances; ~15 % malformed stream (unsorted, "
         "overlapping bands, all-NaN order, order out of range, short order list, duplicated request). Each table goes through SSI_mpe "
         "(with/without covariances) and pLSCF_mpe for order=int, list, 'find_min' (pLSCF find_min with stable label 1 and relabelled 7). "
-        "A case is non-trivial when the table has NaNs and more than one row and order; distinct by hash of (table, requests, entry point, order).")
+        "A case is non-trivial when the table has NaNs and more than one row and order; distinct by hash of (table, requests, entry point, order). "
+        "Class level: seven classes through setup.mpe on their own tables and on injected tables (covariance tables in any SSI class, run parameters "
+        "ordmin in {0,2,4,6} and step in {1,2,3}), hand-over and stored object compared with the class-level model; positional call forms of every entry point.")
     ctx.assumptions += [
         "np.isclose(a,b,rtol) is |a-b| <= 1e-8 + rtol|b| and np.nanargmin returns the first index of the minimum (modelled; cases whose float and exact decisions differ are not judged)",
         "np.unique returns the ascending distinct values (modelled by uniq_sorted)",
         "the moved tables (Xi, Phi, covariances) are one opaque payload per cell in the model; the harness traces every returned component back to its cell",
+        "the classes call the extraction routines through the module attributes ssi.SSI_mpe / plscf.pLSCF_mpe (where the harness records the hand-over; if a class reaches them another way the hand-over is reported as not observed and only the stored object is compared)",
         "oracle for 'find_min' judges a table only when the readings of 'within tolerance' (np.isclose alone / search band and isclose / exactly one in the band) agree",
     ]
     R = Runner(ctx)
